@@ -92,7 +92,8 @@ type PathState struct {
 	jsonTab  map[string]*wireEntry
 	ldb      map[string]map[string]Value
 
-	nondet bool // the path uses an over-approximating stub: no sample prediction
+	usedMapOrder bool
+	nondet       bool // the path uses an over-approximating stub: no sample prediction
 
 	known map[*Term]bool   // atoms asserted on this path
 	lo    map[*Term]uint64 // unsigned lower bounds of BV terms (w<=64)
@@ -100,14 +101,15 @@ type PathState struct {
 }
 
 type Violation struct {
-	Harness string
-	Label   string
-	Detail  string
-	Alt     []map[string]string // further models of the same violated check (tried if the first does not replay)
-	Inputs  map[string]string
-	Path    string
-	Count   int
-	Stack   string
+	Harness  string
+	Label    string
+	Detail   string
+	MapOrder bool                // found on a path with symbolic map iteration order
+	Alt      []map[string]string // further models of the same violated check (tried if the first does not replay)
+	Inputs   map[string]string
+	Path     string
+	Count    int
+	Stack    string
 
 	confirmed     bool
 	failedReplays int
@@ -634,7 +636,7 @@ func (in *Interp) recordViolationRanked(label, detail string, m Model, stack str
 		}
 		return
 	}
-	res.Violations[key] = &Violation{Harness: res.Name, Label: label, Detail: detail, Inputs: inputs, Path: fmtDecisions(in.P.decisions), Count: 1, Stack: stack, rank: rank}
+	res.Violations[key] = &Violation{Harness: res.Name, Label: label, Detail: detail, Inputs: inputs, Path: fmtDecisions(in.P.decisions), Count: 1, Stack: stack, rank: rank, MapOrder: in.P.usedMapOrder}
 }
 
 func fmtDecisions(ds []Decision) string {
@@ -798,7 +800,7 @@ func (in *Interp) runPath(fn *ssa.Function, prefix []Decision) {
 		ex.mu.Lock()
 		want := len(ex.res.Samples) < in.opts.Samples
 		ex.mu.Unlock()
-		if want && !P.nondet {
+		if want && !P.nondet && !P.usedMapOrder {
 			sample = in.makeSample(status)
 		}
 	}
